@@ -34,9 +34,9 @@ fn client_of_get_plain<W: Write + io::Seek>(g: &mut GenericZipWriter<W>, buf: &[
     let w = g.get_plain();
     w.write_all(buf)
 }
-//@impl src/write.rs | impl ZipWriterStats
+//@impl src/write.rs | impl ZipWriterStats ; optional
 impl ZipWriterStats {
-//@use zipwriterstats_update
+//@use zipwriterstats_update optional
 }
 //@impl src/write.rs | impl FileOptions
 impl FileOptions {
@@ -45,6 +45,7 @@ impl FileOptions {
 //@use fileoptions_last_modified_time
 //@use fileoptions_unix_permissions
 //@use fileoptions_large_file
+//@use fileoptions_with_deprecated_encryption
 }
 //@use validate_extra_data
 //@use clamp_opt
